@@ -230,7 +230,7 @@ class Ctx:
         self.known_examples.setdefault(fid, example)
 
     # -- differential comparison ---------------------------------------------------------------
-    def compare(self, cases, stream='random', trigger_findings=None):
+    def compare(self, cases, stream='random', trigger_findings=None, refusal_ok=False):
         """cases: list of (op_line, py_result, nontrivial: bool).  Driver lines are
         `spec | impl [| extra]`.  Classification:
             py == spec                         -> agree
@@ -255,6 +255,10 @@ class Ctx:
             if py == spec:
                 if self.evals % 97 == 1:
                     self.sample({'op': op, 'impl': py, 'spec': spec})
+                continue
+            if refusal_ok and py == 'none':
+                # a refusal where the Spec would accept: only allowed for properties that constrain acceptance
+                self.count('refused-where-spec-accepts:' + op.split(' ')[0])
                 continue
             fid = None
             if py == impl and self.flags:
@@ -312,6 +316,11 @@ class Ctx:
             'assumptions': TRUSTED_BASE + self.assumptions,
             'wall_s': round(wall, 2), 'violations': len(self.violations),
         }
+        vs = {}
+        for v in self.violations:
+            k = str(v['replay'].get('op', v['what'])).split(' ')[0] + ':' + str(v['replay'].get('kind', ''))
+            vs.setdefault(k, []).append(v['replay'])
+        ev['coverage']['violation_summary'] = {k: {'count': len(x), 'first': x[:3]} for k, x in vs.items()}
         if self.exhaustive is not None:
             ev['coverage']['exhaustive'] = self.exhaustive
         ev['coverage'].update(self.extra)
